@@ -427,6 +427,7 @@ func runHot(c HotCase) *vk.Violation {
 			for i := 0; i < c.Iters; i++ {
 				k := (i + gi) % len(c.Ops)
 				seen[gi][k][exec(c.Ops[k])]++
+				hotProgress.Add(1)
 			}
 		}()
 	}
@@ -446,9 +447,11 @@ func runHot(c HotCase) *vk.Violation {
 	return nil
 }
 
-// hotLimit: a hot loop takes a few seconds at most; one that has not finished after two minutes is stuck
-// (goroutines waiting for each other inside the library), not slow.
-const hotLimit = 2 * time.Minute
+// hotProgress counts completed calls of the running hot loop. A loop is "stuck" when NO call of ANY of its
+// goroutines completes during 24 consecutive five-second polls (calls that return at once when run alone
+// wait for each other inside the library). Progress, not elapsed time, is the criterion: a loaded machine
+// makes the loop slow, never motionless, and a suspended VM costs at most one poll.
+var hotProgress atomic.Int64
 
 func runHotTimed(c HotCase) *vk.Violation {
 	done := make(chan *vk.Violation, 1)
@@ -460,15 +463,25 @@ func runHotTimed(c HotCase) *vk.Violation {
 		}()
 		done <- runHot(c)
 	}()
-	select {
-	case v := <-done:
-		return v
-	case <-time.After(hotLimit):
-		kind := "?"
-		if len(c.Ops) > 0 {
-			kind = c.Ops[0].K
+	last, idle := hotProgress.Load(), 0
+	for {
+		select {
+		case v := <-done:
+			return v
+		case <-time.After(5 * time.Second):
+			if now := hotProgress.Load(); now != last {
+				last, idle = now, 0
+				continue
+			}
+			idle++
+			if idle >= 24 {
+				kind := "?"
+				if len(c.Ops) > 0 {
+					kind = c.Ops[0].K
+				}
+				return vk.Violf("hot-loop/"+kind+"/goroutines-stuck", c, "%d goroutines calling %s concurrently: not one call completed during %d consecutive 5 s polls - calls that return at once when run alone wait for each other inside the library", c.G, kind, idle)
+			}
 		}
-		return vk.Violf("hot-loop/"+kind+"/goroutines-stuck", c, "%d goroutines calling %s concurrently have not all returned after %v: calls that return at once when run alone wait for each other inside the library", c.G, kind, hotLimit)
 	}
 }
 
